@@ -10,7 +10,7 @@ args = sys.argv[1:]
 J = 4
 if args and args[0] == '-j': J = int(args[1]); args = args[2:]
 ids = args or sorted(os.path.basename(d) for d in glob.glob(os.path.join(ROOT, 'seeded', 'C*')))
-BASE = '/tmp/seedpar'
+BASE = os.environ.get('SEEDPAR_BASE', '/tmp/seedpar')
 def sh(cmd, **kw): return subprocess.run(cmd, shell=True, text=True, capture_output=True, **kw)
 def one(slot_id):
     slot, i = slot_id
